@@ -613,7 +613,7 @@ func runInteg(r *mon.Run, idx int, wd time.Duration) integResult {
 			}
 		}
 		for _, c := range compsBy[it.Src] {
-			if c.End > it.A && c.Start < d.Stamp && matches(c.Inst) {
+			if (c.End == 0 || c.End > it.A) && c.Start < d.Stamp /* End == 0: the hand-over of the answer had begun but its end was not yet stamped when the log was read */ && matches(c.Inst) {
 				justified = true
 				if d.Stamp > it.B {
 					parked++
